@@ -142,8 +142,11 @@ def main():
         if l not in seen:
             print(l)
             seen.add(l)
-    for v in ctx.violations[:6]:
-        print("  [%s] %s" % (v["kind"], v["what"][:600].replace("\n", " | ")), file=sys.stderr)
+    # details on stderr: violations not listed as known findings first
+    shown = sorted(ctx.violations, key=lambda v: known_match(v) is not None)[:6]
+    for v in shown:
+        tag = v["kind"] + (", listed as %s" % known_match(v)["id"] if known_match(v) is not None else "")
+        print("  [%s] %s" % (tag, v["what"][:600].replace("\n", " | ")), file=sys.stderr)
 
     wall = time.time() - t0
     tb = list(frag.get("trusted_base", []))
